@@ -77,9 +77,15 @@ func (w *World) nextTimer() *Timer {
 
 type clock struct{ w *World }
 
-func (c *clock) Name() string  { return "clock" }
-func (c *clock) Owner() *Proc  { return nil }
-func (c *clock) Enabled() bool { return c.w.nextTimer() != nil }
+func (c *clock) Name() string { return "clock" }
+func (c *clock) Owner() *Proc { return nil }
+func (c *clock) Enabled() bool {
+	t := c.w.nextTimer()
+	if t == nil {
+		return false
+	}
+	return !c.w.inQuiesce || t.at <= c.w.horizon
+}
 func (c *clock) Step() string {
 	t := c.w.nextTimer()
 	if t == nil {
